@@ -111,7 +111,7 @@ pub enum Obs {
 	Reconnected { a: usize, b: usize },
 	/// Node restarted from (manager bytes, chosen monitor snapshots). `chosen` = (channel, latest update id
 	/// of the monitor snapshot loaded); `lost_delivery` = the message being handled when the crash hit.
-	Restarted { node: usize, chosen: Vec<(ChannelId, u64)>, lost_delivery: Option<(usize, Wire)>, mgr_known_ids: Vec<(ChannelId, u64)>, mgr_known_open: Vec<ChannelId> },
+	Restarted { node: usize, chosen: Vec<(ChannelId, u64)>, lost_delivery: Option<(usize, Wire)>, mgr_known_ids: Vec<(ChannelId, u64)>, mgr_known_open: Vec<ChannelId>, mgr_pending: Vec<lightning::types::payment::PaymentHash> },
 	Completed { node: usize, chan: ChannelId, id: u64 },
 	/// An `ErrorAction` other than a wire message (ignore/log).
 	ErrorAction { from: usize, to: usize, what: String },
@@ -174,6 +174,8 @@ pub struct World {
 	/// per node: last update id handed to Persist per channel (live), and as of the last manager write
 	pub live_ids: Vec<BTreeMap<ChannelId, u64>>,
 	pub mgr_known_ids: Vec<BTreeMap<ChannelId, u64>>,
+	/// payments the last written manager of each node lists as still pending
+	pub mgr_known_pending: Vec<Vec<lightning::types::payment::PaymentHash>>,
 	/// per node: channels that were open in the manager when it was last written
 	pub mgr_known_open: Vec<Vec<ChannelId>>,
 }
@@ -252,6 +254,7 @@ impl World {
 			style: SyncStyle::ListenFull,
 			live_ids: vec![BTreeMap::new(); n],
 			mgr_known_ids: vec![BTreeMap::new(); n],
+			mgr_known_pending: vec![Vec::new(); n],
 			mgr_known_open: vec![Vec::new(); n],
 		}
 	}
@@ -339,8 +342,7 @@ impl World {
 			if self.nodes[i].cm.get_and_clear_needs_persistence() {
 				if self.eager_manager_persist && !self.manager_write_held[i] {
 					self.nodes[i].write_manager();
-					self.mgr_known_ids[i] = self.live_ids[i].clone();
-					self.mgr_known_open[i] = self.nodes[i].cm.list_channels().iter().map(|c| c.channel_id).collect();
+					self.note_manager_written(i);
 				} else {
 					self.manager_dirty[i] = true;
 				}
@@ -1095,6 +1097,22 @@ impl World {
 		r.is_ok()
 	}
 
+	/// Records what the manager just written for node `i` knows (used to judge restarts from it).
+	pub fn note_manager_written(&mut self, i: usize) {
+		use lightning::ln::channelmanager::RecentPaymentDetails;
+		self.mgr_known_ids[i] = self.live_ids[i].clone();
+		self.mgr_known_open[i] = self.nodes[i].cm.list_channels().iter().map(|c| c.channel_id).collect();
+		self.mgr_known_pending[i] = self.nodes[i]
+			.cm
+			.list_recent_payments()
+			.into_iter()
+			.filter_map(|p| match p {
+				RecentPaymentDetails::Pending { payment_hash, .. } => Some(payment_hash),
+				_ => None,
+			})
+			.collect();
+	}
+
 	// -------------------------------------------------------------------------------------
 	// crash / restart
 	pub fn restart_node(
@@ -1110,6 +1128,7 @@ impl World {
 			lost_delivery,
 			mgr_known_ids: self.mgr_known_ids[n].iter().map(|(c, i)| (*c, *i)).collect(),
 			mgr_known_open: self.mgr_known_open[n].clone(),
+			mgr_pending: self.mgr_known_pending[n].clone(),
 		});
 		// connections drop
 		for o in 0..self.nodes.len() {
